@@ -75,21 +75,22 @@ Section Model.
     rnd A (rnd A (rnd A (op_maxl i j + odfun i j 0) + eps i) + otol i).
 End Model.
 
-(* get_tour_length(gather(locs, actions)): consecutive distances along the action list, cyclically, WITHOUT a depot
-   in front (exact sum; the implementation's float32 sum is compared with a margin) *)
-Fixpoint seg_len (d : nat -> nat -> Z) (l : list nat) : Z :=
+(* get_tour_length(cat(depot, gather(locs, actions))): consecutive distances along depot :: actions, cyclically, i.e.
+   the closed walk depot -> actions -> depot (exact sum; the implementation's float32 sum is compared with a margin).
+   (Before the repair 728e3da the depot was not prepended and an action list that did not end at the depot was measured
+   without its depot legs: recorded as fixed in known_findings.json.) *)
+Fixpoint op_walk (d : nat -> nat -> Z) (from : nat) (l : list nat) : Z :=
   match l with
-  | x :: ((y :: _) as r) => d x y + seg_len d r
-  | _ => 0
+  | [] => d from 0%nat
+  | a :: r => d from a + op_walk d a r
   end.
-Definition cyc_len (d : nat -> nat -> Z) (l : list nat) : Z :=
-  match l with [] => 0 | x :: _ => seg_len d l + d (last l 0%nat) x end.
+Definition op_tour_len (d : nat -> nat -> Z) (l : list nat) : Z := op_walk d 0%nat l.
 
 (* [margin] is added to the length before the comparison (0 = the checker itself) *)
 Definition op_checker_m (A : arith) (margin : Z) (i : op_inst) (acts : list nat) : bool :=
   adj_ok (sort_nat acts) &&
   forallb (fun a => Nat.leb a (op_n i)) acts &&
-  forallb (fun j => cyc_len (odfun i) acts + margin <=? op_thr A i j) (seq 0 (S (op_n i))).
+  forallb (fun j => op_tour_len (odfun i) acts + margin <=? op_thr A i j) (seq 0 (S (op_n i))).
 Definition op_checker (A : arith) := op_checker_m A 0.
 
 (* _get_reward: zeros when the action tensor has a single column, else the gathered (padded) prizes summed *)
